@@ -21,6 +21,8 @@ def pipeline_cfgs(rep, what):
     elif what == 'faults':      # C07: a panic at every callback position / invocation index, two kinds
         cfgs.append(pp.gen_cfg('single-faults', MaxSteps=4 if th else 3, FaultSetName='"callbacks"', MaxIllegal=1))
         cfgs.append(pp.gen_cfg('pairs-faults', ChainSetName='"pairs"' if th else '"pairs-sample"', SampleN=0 if th else 40, MaxSteps=3, FaultSetName='"callbacks"'))
+    elif what == 'observer-faults':   # C07: a panic inside the final observer's own callbacks
+        cfgs.append(pp.gen_cfg('single-observer-faults', MaxSteps=4 if th else 3, FaultSetName='"observer"', MaxIllegal=1))
     elif what == 'resub':       # C12: the model re-subscribes the same pipeline object
         cfgs.append(pp.gen_cfg('single-resub', MaxSteps=5 if th else 4, MaxSubs=2))
         cfgs.append(pp.gen_cfg('pairs-resub', ChainSetName='"pairs"' if th else '"pairs-sample"', SampleN=0 if th else 40, MaxSteps=5 if th else 4, MaxSubs=2))
